@@ -250,6 +250,9 @@ func checkC12(r *Run) {
 	}
 	ruleA15b(r, p, "A15b")
 	rulePollerLoop(r, p)
+	// a consumer whose read head does not move past what it delivered looks at an emptied slot from
+	// then on: later messages sit in the ring with the consumer idle until something laps it again
+	ruleReaderAdvances(r, p, "ALERT")
 	ruleCloseOrder(r, p, "CLOSE")
 	r.Floor("A15b", 3)
 	r.Floor("POLL", 2)
